@@ -92,6 +92,15 @@ func (c *child) key(k string) {
 
 func (c *child) count(k string) { c.counters[k]++ }
 
+func (c *child) flushCounters() {
+	if len(c.counters) == 0 {
+		return
+	}
+	b, _ := json.Marshal(c.counters)
+	c.counters = map[string]int64{}
+	c.emit("N " + string(b))
+}
+
 func (c *child) violate(fp string, detail map[string]interface{}) {
 	detail["case"] = c.cur
 	b, _ := json.Marshal(violation{fp, detail})
@@ -158,10 +167,13 @@ func childMain() {
 			c.cur = c.cs.get(id)
 			c.emit("S " + strconv.FormatInt(id, 10))
 			c.runCase(c.cur)
+			// Counters are flushed often so that a later crash of this process loses none.
+			if len(c.counters) > 0 && (c.cur.Victim != "" || id%256 == 255) {
+				c.flushCounters()
+			}
 		}
-		b, _ := json.Marshal(c.counters)
-		c.counters = map[string]int64{}
-		c.emit(fmt.Sprintf("D %d %d %s", from, to, b))
+		c.flushCounters()
+		c.emit(fmt.Sprintf("D %d %d", from, to))
 	}
 }
 
@@ -253,6 +265,78 @@ type tap struct {
 	mu     sync.Mutex
 	sends  []sendRec
 	closed bool
+
+	// Message pump (see pump): real receiver -> out, one message at a time.
+	out   chan *conn.Message
+	stop  chan struct{}
+	taken int
+	done  int
+}
+
+func newTap(cn *conn.Conn) *tap {
+	t := &tap{c: cn, out: make(chan *conn.Message), stop: make(chan struct{})}
+	go t.pump()
+	return t
+}
+
+// barrier is a message the dispatcher handles with an empty function
+// (handleCancelPiece). The pump hands it to the dispatcher's feed loop after
+// every real message: feed takes it only once it has finished the real one,
+// which makes "all delivered messages are fully dispatched" observable without
+// closing the connection (closing races with the dispatcher's replies).
+var barrier = &conn.Message{Message: &p2p.Message{Type: p2p.Message_CANCEL_PIECE, CancelPiece: &p2p.CancelPieceMessage{}}}
+
+func (t *tap) pump() {
+	defer close(t.out)
+	idle := 0
+	for {
+		var m *conn.Message
+		ok, got := true, false
+		t.mu.Lock()
+		select {
+		case m, ok = <-t.c.Receiver():
+			got = true
+			if ok {
+				t.taken++
+			}
+		default:
+		}
+		t.mu.Unlock()
+		if !got {
+			select {
+			case <-t.stop:
+				return
+			default:
+			}
+			if idle++; idle < 20 {
+				runtime.Gosched()
+			} else {
+				time.Sleep(20 * time.Microsecond)
+			}
+			continue
+		}
+		idle = 0
+		if !ok {
+			return
+		}
+		for _, x := range []*conn.Message{m, barrier} {
+			select {
+			case t.out <- x:
+			case <-t.stop:
+				return
+			}
+		}
+		t.mu.Lock()
+		t.done++
+		t.mu.Unlock()
+	}
+}
+
+// quiet: nothing delivered by the read loop is waiting or being dispatched.
+func (t *tap) quiet() bool {
+	t.mu.Lock()
+	defer t.mu.Unlock()
+	return len(t.c.Receiver()) == 0 && t.taken == t.done
 }
 
 type errReader struct {
@@ -293,7 +377,7 @@ func (t *tap) Send(msg *conn.Message) error {
 	t.mu.Unlock()
 	return t.c.Send(msg)
 }
-func (t *tap) Receiver() <-chan *conn.Message { return t.c.Receiver() }
+func (t *tap) Receiver() <-chan *conn.Message { return t.out }
 func (t *tap) Close() {
 	t.mu.Lock()
 	t.closed = true
@@ -319,22 +403,36 @@ func bitsetOf(n int, word uint64) *bitset.BitSet {
 // settle waits until every goroutine started during the case has exited, so a
 // late panic is attributed to the right case.
 func (c *child) settle() {
-	deadline := time.Now().Add(20 * time.Second)
+	if !c.settleFor(20 * time.Second) {
+		buf := make([]byte, 1<<16)
+		buf = buf[:runtime.Stack(buf, true)]
+		c.fail("goroutines did not settle (%d > %d): %s", runtime.NumGoroutine(), c.baseline, buf)
+	}
+}
+
+func (c *child) settleFor(d time.Duration) bool {
+	deadline := time.Now().Add(d)
 	for i := 0; ; i++ {
 		if runtime.NumGoroutine() <= c.baseline {
-			return
+			return true
 		}
 		if i < 50 {
 			runtime.Gosched()
 		} else {
 			time.Sleep(50 * time.Microsecond)
 		}
-		if i%1000 == 999 && time.Now().After(deadline) {
-			buf := make([]byte, 1<<16)
-			buf = buf[:runtime.Stack(buf, true)]
-			c.fail("goroutines did not settle (%d > %d): %s", runtime.NumGoroutine(), c.baseline, buf)
+		if i%200 == 199 && time.Now().After(deadline) {
+			return false
 		}
 	}
+}
+
+// restart asks the parent for a fresh worker process (state after a recovered
+// panic could not be cleaned up).
+func (c *child) restart() {
+	c.flushCounters()
+	c.emit("R " + strconv.FormatInt(c.cur.ID, 10))
+	os.Exit(0)
 }
 
 var allocSample = []metrics.Sample{{Name: "/gc/heap/allocs:bytes"}}
@@ -342,6 +440,20 @@ var allocSample = []metrics.Sample{{Name: "/gc/heap/allocs:bytes"}}
 func heapAllocs() uint64 {
 	metrics.Read(allocSample)
 	return allocSample[0].Value.Uint64()
+}
+
+// noDeadline makes the victim's end of the pipe ignore deadlines, like
+// conn.PipeFixture's noopDeadline: handshake timeouts are wall-clock timers
+// (5 s) that would fire long after the case is over.
+type noDeadline struct{ net.Conn }
+
+func (noDeadline) SetDeadline(time.Time) error      { return nil }
+func (noDeadline) SetReadDeadline(time.Time) error  { return nil }
+func (noDeadline) SetWriteDeadline(time.Time) error { return nil }
+
+func pipe() (attacker net.Conn, victim net.Conn) {
+	a, b := net.Pipe()
+	return a, noDeadline{b}
 }
 
 // writeAll writes b; an error only means the victim closed the connection.
@@ -390,9 +502,7 @@ func (c *child) guarded(f func()) (panicked bool) {
 			}
 			c.violate(fp, map[string]interface{}{"panic": fmt.Sprint(r), "frames": frames, "where": "goroutine owned by the caller of kraken (scheduler event loop / accept goroutine in production)"})
 			c.count("recovered_panics")
-			// State may be inconsistent (locks held): start over in a fresh process.
-			c.emit("R " + strconv.FormatInt(c.cur.ID, 10))
-			os.Exit(0)
+			panicked = true
 		}
 	}()
 	f()
@@ -401,11 +511,11 @@ func (c *child) guarded(f func()) (panicked bool) {
 
 // runHSRaw delivers a raw body as the first (handshake) message to Handshaker.Accept.
 func (c *child) runHSRaw(tc tcase) {
-	a, b := net.Pipe()
+	a, b := pipe()
 	done := make(chan string, 1)
 	before := heapAllocs()
 	go func() {
-		c.guarded(func() {
+		if c.guarded(func() {
 			pc, err := c.wireHS.Accept(b)
 			if err != nil {
 				b.Close()
@@ -414,7 +524,10 @@ func (c *child) runHSRaw(tc tcase) {
 			}
 			pc.Close()
 			done <- "accepted"
-		})
+		}) {
+			b.Close()
+			done <- "panic"
+		}
 	}()
 	writeAll(a, frameBody(tc.HS))
 	out := <-done
@@ -422,6 +535,9 @@ func (c *child) runHSRaw(tc tcase) {
 	c.checkAlloc(before, "handshake")
 	c.key("hsraw|" + out)
 	c.count("hsraw_" + out)
+	if out == "panic" && !c.settleFor(2*time.Second) {
+		c.restart()
+	}
 	if out == "accepted" {
 		c.violate("raw handshake body accepted", map[string]interface{}{"note": "a body of at most 3 bytes cannot carry peer id, info hash and digest"})
 	}
@@ -429,11 +545,11 @@ func (c *child) runHSRaw(tc tcase) {
 
 // runHSPrefix: a handshake whose length prefix is at/above the message cap.
 func (c *child) runHSPrefix(tc tcase) {
-	a, b := net.Pipe()
+	a, b := pipe()
 	done := make(chan string, 1)
 	before := heapAllocs()
 	go func() {
-		c.guarded(func() {
+		if c.guarded(func() {
 			pc, err := c.wireHS.Accept(b)
 			if err != nil {
 				b.Close()
@@ -442,13 +558,19 @@ func (c *child) runHSPrefix(tc tcase) {
 			}
 			pc.Close()
 			done <- "accepted"
-		})
+		}) {
+			b.Close()
+			done <- "panic"
+		}
 	}()
 	writeAll(a, frame(tc.Msgs[0]))
 	a.Close()
 	out := <-done
 	c.checkAlloc(before, "length prefix")
 	c.key("prefix-hs|" + out)
+	if out == "panic" && !c.settleFor(2*time.Second) {
+		c.restart()
+	}
 	if out == "accepted" {
 		c.violate("handshake with oversized/short frame accepted", map[string]interface{}{})
 	}
@@ -467,10 +589,10 @@ func (c *child) checkAlloc(before uint64, kind string) bool {
 // runWire: conn layer only. Honest handshake through the real Handshaker, then
 // the body; everything the real read loop delivers is collected from Receiver().
 func (c *child) runWire(tc tcase, prefixMode bool) {
-	a, b := net.Pipe()
+	a, b := pipe()
 	res := make(chan *conn.Conn, 1)
 	go func() {
-		c.guarded(func() {
+		if c.guarded(func() {
 			pc, err := c.wireHS.Accept(b)
 			if err != nil {
 				c.fail("honest handshake rejected: %v", err)
@@ -481,7 +603,9 @@ func (c *child) runWire(tc tcase, prefixMode bool) {
 			}
 			cn.Start()
 			res <- cn
-		})
+		}) {
+			c.restart() // an honest handshake made the real handshaker panic
+		}
 	}()
 	go io.Copy(io.Discard, a)
 	c.wireEv.mu.Lock()
@@ -556,6 +680,7 @@ type victim struct {
 	cev     *connEvents
 	dev     *dispEvents
 	conns   int
+	taps    []*tap
 	read    func() ([]byte, error) // the blob file as stored
 }
 
@@ -637,8 +762,46 @@ func (c *child) newVictim(kind, policy string) *victim {
 	return v
 }
 
+func (v *victim) stopTaps() {
+	for _, t := range v.taps {
+		select {
+		case <-t.stop:
+		default:
+			close(t.stop)
+		}
+	}
+}
+
+// waitQuiet blocks until every message the peer's read loop delivered has been
+// dispatched, or the peer was removed (connection ended).
+func (c *child) waitQuiet(v *victim, t *tap) {
+	removed := v.dev.ch(t.c.PeerID())
+	deadline := time.Now().Add(30 * time.Second)
+	for i := 0; ; i++ {
+		select {
+		case <-removed:
+			return
+		default:
+		}
+		if t.quiet() {
+			return
+		}
+		if i < 50 {
+			runtime.Gosched()
+		} else {
+			time.Sleep(20 * time.Microsecond)
+		}
+		if i%500 == 499 && time.Now().After(deadline) {
+			buf := make([]byte, 1<<16)
+			buf = buf[:runtime.Stack(buf, true)]
+			c.fail("dispatcher did not become quiet: %s", buf)
+		}
+	}
+}
+
 func (v *victim) close() {
 	v.d.TearDown()
+	v.stopTaps()
 	v.cev.wait(v.conns)
 	v.closeFn()
 	os.RemoveAll(v.dir)
@@ -665,7 +828,8 @@ func (c *child) accept(v *victim, nc net.Conn) (tp *tap, outcome string) {
 	}
 	v.conns++
 	cn.Start()
-	tp = &tap{c: cn}
+	tp = newTap(cn)
+	v.taps = append(v.taps, tp)
 	if err := v.d.AddPeer(cn.PeerID(), cn.IsPeerOrigin(), pc.Bitfield(), tp); err != nil {
 		cn.Close()
 		return nil, "rejected by AddPeer"
@@ -731,17 +895,19 @@ func startWireReader(nc net.Conn) *wireReader {
 
 // connect opens one peer connection to the victim with the given handshake body.
 func (c *child) connect(v *victim, hsBody []byte) (a net.Conn, tp *tap, outcome string, wr *wireReader) {
-	a, b := net.Pipe()
+	a, b := pipe()
 	type res struct {
 		tp  *tap
 		out string
 	}
 	done := make(chan res, 1)
 	go func() {
-		c.guarded(func() {
+		if c.guarded(func() {
 			tp, out := c.accept(v, b)
 			done <- res{tp, out}
-		})
+		}) {
+			done <- res{nil, "panic"}
+		}
 	}()
 	wr = startWireReader(a)
 	writeAll(a, frameBody(hsBody))
@@ -770,6 +936,21 @@ func (c *child) runE2E(tc tcase, kind string) {
 		hsBody = honestHS(attackerID).body()
 	}
 	aconn, atap, aout, _ := c.connect(v, hsBody)
+	if aout == "panic" {
+		// The violation is reported; the victim may be half-built. Tear down
+		// what can be torn down; if goroutines linger, take a fresh process.
+		aconn.Close()
+		hconn.Close()
+		c.key(fmt.Sprintf("%s|%s|%s|panic", tc.Family, kind, hsClass(tc)))
+		v.d.TearDown()
+		v.stopTaps()
+		v.closeFn()
+		os.RemoveAll(v.dir)
+		if !c.settleFor(3 * time.Second) {
+			c.restart()
+		}
+		return
+	}
 	alive := false
 	if aout == "added" {
 		alive = true
@@ -779,14 +960,20 @@ func (c *child) runE2E(tc tcase, kind string) {
 				break
 			}
 		}
-		alive = alive && writeAll(aconn, []byte{0})
+		// Two separate probe bytes: each is taken only by a running read loop,
+		// and a message completed by the first one has been delivered by the
+		// time the second one is taken.
+		alive = alive && writeAll(aconn, []byte{0}) && writeAll(aconn, []byte{0})
 	}
-	aconn.Close()
 	var asends []sendRec
 	tapClosed := false
 	if atap != nil {
-		<-v.dev.ch(atap.c.PeerID())
+		c.waitQuiet(v, atap)
 		asends, tapClosed = atap.snapshot()
+	}
+	if os.Getenv("VERIF_C14_TRACE") != "" {
+		b, _ := json.Marshal(asends)
+		fmt.Fprintf(os.Stderr, "TRACE case %d %s: attacker outcome=%s alive=%v sends=%s\n", tc.ID, kind, aout, alive, b)
 	}
 	allocKind := tc.Kind
 	c.checkAlloc(before, allocKind)
@@ -794,6 +981,9 @@ func (c *child) runE2E(tc tcase, kind string) {
 	// ---- what the victim answered to the attacker
 	validReq := map[int32]int{}
 	allowedWrite := map[int]bool{0: true}
+	if kind == "origin" {
+		allowedWrite = map[int]bool{0: true, 1: true, 2: true} // an origin holds the whole blob from the start
+	}
 	for _, m := range tc.Msgs {
 		if m.ValidReq >= 0 {
 			validReq[int32(m.ValidReq)]++
@@ -821,6 +1011,18 @@ func (c *child) runE2E(tc tcase, kind string) {
 		}
 	}
 
+	aconn.Close()
+	if atap != nil {
+		<-v.dev.ch(atap.c.PeerID())
+	}
+	written := c.integrity(v, kind, allowedWrite, "after attacker connection")
+	if kind == "origin" {
+		written = nil
+	}
+	if len(written) > 0 {
+		c.count("cases_with_attacker_piece_written")
+	}
+
 	// ---- the honest connection is still served
 	hid := mustPeerID(honestID)
 	send := func(m wmsg) bool {
@@ -844,10 +1046,14 @@ func (c *child) runE2E(tc tcase, kind string) {
 		served = served && send(reqMsg(2, 0, plen(2)))
 		want = append(want, 2)
 	}
+	if served {
+		served = writeAll(hconn, []byte{0}) && writeAll(hconn, []byte{0})
+	}
+	c.waitQuiet(v, htap)
+	hsends, _ := htap.snapshot()
 	hconn.Close()
 	<-v.dev.ch(hid)
 	<-hwire.done
-	hsends, _ := htap.snapshot()
 	if !served {
 		c.violate("honest connection closed by the victim after hostile input on another connection ("+kind+")", map[string]interface{}{"attacker_outcome": aout})
 	} else {
@@ -881,37 +1087,8 @@ func (c *child) runE2E(tc tcase, kind string) {
 	}
 	hwire.mu.Unlock()
 
-	// ---- torrent integrity
-	bf := v.t.Bitfield()
-	var written []int
-	for i := 0; i < nPieces; i++ {
-		has := bf.Test(uint(i))
-		if has && i != 0 {
-			written = append(written, i)
-		}
-		if has && !allowedWrite[i] {
-			c.violate("piece marked complete without a well-formed payload ("+kind+")", map[string]interface{}{"piece": i, "bitfield": bf.String()})
-		}
-	}
-	if bf.Len() != uint(nPieces) {
-		c.violate("torrent bitfield changed size ("+kind+")", map[string]interface{}{"bitfield": bf.String()})
-	}
-	data, err := v.read()
-	if err != nil {
-		c.fail("read blob file: %v", err)
-	}
-	if len(data) != len(blob) {
-		c.violate("blob file size changed ("+kind+")", map[string]interface{}{"size": len(data), "want": len(blob)})
-	} else {
-		for i := 0; i < nPieces; i++ {
-			if bf.Test(uint(i)) && !bytes.Equal(data[int(pieceLen)*i:int(pieceLen)*i+int(plen(i))], pieceBytes(i)) {
-				c.violate("complete piece does not hold the blob's bytes ("+kind+")", map[string]interface{}{"piece": i, "file": data})
-			}
-		}
-	}
-	if len(written) > 1 || (len(written) == 1 && written[0] != 1) || (kind == "agent" && len(tc.Msgs) > 0 && tc.Msgs[0].ValidWrite >= 0) {
-		c.count("cases_with_attacker_piece_written")
-	}
+	// ---- torrent integrity, end state (the honest peer's piece is now allowed too)
+	c.integrity(v, kind, allowedWrite, "end")
 
 	// ---- outcome class
 	state := "alive"
@@ -925,9 +1102,51 @@ func (c *child) runE2E(tc tcase, kind string) {
 	for _, m := range tc.Msgs {
 		mt = append(mt, m.Type)
 	}
+	v.close()
+	c.settle()
+	// Reply types for the outcome class are read once everything is quiet:
+	// AddPeer's own request goroutine is not ordered with the feed loop.
+	replyTypes = nil
+	if atap != nil {
+		fin, _ := atap.snapshot()
+		for _, s := range fin {
+			replyTypes = append(replyTypes, s.Type)
+		}
+	}
 	sort.Strings(replyTypes)
 	c.key(fmt.Sprintf("%s|%s|%s|%v|%s|replies=%v|pieces=%v", tc.Family, kind, hsClass(tc), mt, state, uniq(replyTypes), written))
-	v.close()
+}
+
+// integrity: pieces are complete only through well-formed payloads, complete
+// pieces hold the blob's bytes, the blob file keeps its size.
+func (c *child) integrity(v *victim, kind string, allowed map[int]bool, phase string) (written []int) {
+	bf := v.t.Bitfield()
+	for i := 0; i < nPieces; i++ {
+		has := bf.Test(uint(i))
+		if has && i != 0 {
+			written = append(written, i)
+		}
+		if has && !allowed[i] {
+			c.violate("piece marked complete without a well-formed payload ("+kind+")", map[string]interface{}{"piece": i, "bitfield": bf.String(), "phase": phase})
+		}
+	}
+	if bf.Len() != uint(nPieces) {
+		c.violate("torrent bitfield changed size ("+kind+")", map[string]interface{}{"bitfield": bf.String(), "phase": phase})
+	}
+	data, err := v.read()
+	if err != nil {
+		c.fail("read blob file: %v", err)
+	}
+	if len(data) != len(blob) {
+		c.violate("blob file size changed ("+kind+")", map[string]interface{}{"size": len(data), "want": len(blob), "phase": phase})
+		return written
+	}
+	for i := 0; i < nPieces; i++ {
+		if bf.Test(uint(i)) && !bytes.Equal(data[int(pieceLen)*i:int(pieceLen)*i+int(plen(i))], pieceBytes(i)) {
+			c.violate("complete piece does not hold the blob's bytes ("+kind+")", map[string]interface{}{"piece": i, "file": data, "phase": phase})
+		}
+	}
+	return written
 }
 
 func hsClass(tc tcase) string {
